@@ -151,6 +151,7 @@ func ruleTAIL(c *Ctx) {
 	ret, pop := oi.Val["OpReturn"], oi.Val["OpPop"]
 	var bad []string
 	evalErr := ""
+	popRet := false
 	for _, an := range oi.Names {
 		for _, bn := range oi.Names {
 			env := map[int]int64{next1: oi.Val[an], next2: oi.Val[bn]}
@@ -159,9 +160,13 @@ func ruleTAIL(c *Ctx) {
 				evalErr = er
 				break
 			}
-			isTail := oi.Val[an] == ret || (oi.Val[an] == pop && oi.Val[bn] == ret)
-			if got && !isTail && len(bad) < 3 {
-				bad = append(bad, fmt.Sprintf("treated as a tail call when followed by %s,%s", an, bn))
+			isTail := oi.Val[an] == ret
+			if got && !isTail {
+				if oi.Val[an] == pop && oi.Val[bn] == ret {
+					popRet = true
+				} else if len(bad) < 3 {
+					bad = append(bad, fmt.Sprintf("treated as a tail call when followed by %s,%s", an, bn))
+				}
 			}
 			if !got && oi.Val[an] == ret && len(bad) < 3 {
 				bad = append(bad, fmt.Sprintf("a call directly followed by %s is not treated as a tail call", an))
@@ -171,7 +176,8 @@ func ruleTAIL(c *Ctx) {
 	if evalErr != "" {
 		c.undecided("TAIL.1/predicate", tailIf, "cannot evaluate the tail-call predicate over opcode pairs: "+evalErr)
 	} else {
-		c.check(len(bad) == 0, "TAIL.1/predicate", tailIf, fmt.Sprintf("over all %d×%d opcode pairs: true ⇒ next is RET or POP;RET, and RET ⇒ true (look-ahead offsets %d and %d)", len(oi.Names), len(oi.Names), next1, next2), strings.Join(bad, "; "))
+		c.check(len(bad) == 0, "TAIL.1/predicate", tailIf, fmt.Sprintf("over all %d×%d opcode pairs: apart from CALL;POP;RET (separate obligation) the frame is reused only when the call is directly followed by RET, and always then (look-ahead offsets %d and %d)", len(oi.Names), len(oi.Names), next1, next2), strings.Join(bad, "; "))
+		c.check(!popRet, "TAIL.1/pop-return-not-tail", tailIf, "a self call whose result is discarded is not treated as a tail call", "a self call followed by POP; RET (an expression statement at the end of the function, whose result is discarded and after which the function returns undefined) is treated as a tail call: the reused frame then returns the callee's result to the original caller")
 	}
 	c.check(wPop == 0, "TAIL.1/pop-width", nil, "OpPop has no operands, so the second look-ahead byte is the opcode after it", "OpPop takes operands: the second look-ahead byte is no longer an opcode")
 	// the look-ahead reads use exactly these offsets
